@@ -37,10 +37,15 @@ Fan == 16            \* initial fan-out so that TLC's workers share the catalogu
 \* ---------------------------------------------------------------- rows (materialised per state)
 \* membership / boundary / in-plane rows of one catalogue region over the probe grid; they are
 \* computed once when a pair (or primitive) is picked and carried in the state variable `rows`
-MemRow(r) == [q \in 1..NQ |-> Member(Cat[r], Probes[q])]
-BdRow(r) == [q \in 1..NQ |-> OnBd(Cat[r], Probes[q])]
-PlaneRow(r) == [q \in 1..NQ |-> IsPlanar(Cat[r]) => Probes[q][3] = ZOf(Cat[r])]
-RowsOf(a, b) == [ma |-> MemRow(a), mb |-> MemRow(b), ba |-> BdRow(a), bb |-> BdRow(b), pa |-> PlaneRow(a), pb |-> PlaneRow(b)]
+\* A pair may carry a vertical offset dz (lattice units): its probes are the grid translated by dz.
+\* It is used by the HISTORY cases (see Reuse below), whose second operands sit far above or below
+\* the grid; translating the probes with them keeps everything exact.
+PR(q, dz) == <<Probes[q][1], Probes[q][2], Probes[q][3] + dz>>
+MemRow(r, dz) == [q \in 1..NQ |-> Member(Cat[r], PR(q, dz))]
+BdRow(r, dz) == [q \in 1..NQ |-> OnBd(Cat[r], PR(q, dz))]
+PlaneRow(r, dz) == [q \in 1..NQ |-> IsPlanar(Cat[r]) => PR(q, dz)[3] = ZOf(Cat[r])]
+RowsOf(a, b, dz) == [ma |-> MemRow(a, dz), mb |-> MemRow(b, dz), ba |-> BdRow(a, dz), bb |-> BdRow(b, dz),
+                     pa |-> PlaneRow(a, dz), pb |-> PlaneRow(b, dz)]
 Bit(b) == IF b THEN 1 ELSE 0
 
 PA(p) == Cat[Pairs[p].a]
@@ -115,7 +120,7 @@ CaseRec(p, o, rw) == LET RR == Comp(o, PA(p), PB(p)) IN
     ok |-> [q \in 1..NQ |-> Bit(ClearR(rw, q) /\ PlaneOKR(rw, q) /\ JudgedR(p, rw, o, q))],
     trig |-> TrigOp(PA(p), PB(p), o),
     h |-> Height(RR), bb |-> AABB(RR),
-    dist |-> [k \in 1..Len(DistIdx) |-> Dist(RR, Probes[DistIdx[k]])],
+    dist |-> [k \in 1..Len(DistIdx) |-> Dist(RR, PR(DistIdx[k], Pairs[p].dz))],
     smp |-> [k \in 1..Len(SmpP(p, o)) |-> Cell(RR, SmpP(p, o)[k])]]
 
 Init == mode = "start" /\ i \in 0..(Fan - 1) /\ op = "none" /\ out = <<>> /\ rows = <<>>
@@ -127,9 +132,9 @@ PickSmp == /\ mode = "start" /\ Data.run = "samples" /\ mode' = "smp" /\ rows' =
                 /\ out' = [t |-> "smp", p |-> p, op |-> o,
                            smp |-> [k \in 1..Len(SmpP(p, o)) |-> Cell(Comp(o, PA(p), PB(p)), SmpP(p, o)[k])]]
 PickPrim == /\ mode = "start" /\ Data.run = "laws" /\ mode' = "prim" /\ op' = "none"
-            /\ \E r \in 1..NC : r % Fan = i /\ i' = r /\ rows' = RowsOf(r, r) /\ out' = PrimRec(r, rows')
+            /\ \E r \in 1..NC : r % Fan = i /\ i' = r /\ r <= Data.nprim /\ rows' = RowsOf(r, r, 0) /\ out' = PrimRec(r, rows')
 PickPair == /\ mode = "start" /\ Data.run = "laws" /\ mode' = "pair" /\ op' = "none"
-            /\ \E p \in 1..NP : p % Fan = i /\ i' = p /\ rows' = RowsOf(Pairs[p].a, Pairs[p].b) /\ out' = PairRec(p, rows')
+            /\ \E p \in 1..NP : p % Fan = i /\ i' = p /\ rows' = RowsOf(Pairs[p].a, Pairs[p].b, Pairs[p].dz) /\ out' = PairRec(p, rows')
 Compose(o) == /\ mode = "pair" /\ op = "none" /\ op' = o /\ out' = CaseRec(i, o, rows)
               /\ UNCHANGED <<mode, i, rows>>
 Next == PickPrim \/ PickPair \/ PickSmp \/ \E o \in Ops : Compose(o)
@@ -146,6 +151,8 @@ IsPair == mode = "pair" /\ op = "none"
 IsCase == mode = "pair" /\ op # "none"
 Expected(q) == out.bits[q] = 1
 
+\* the probe q of the current state (translated for pairs with an offset)
+Pq(q) == PR(q, IF mode = "pair" THEN Pairs[i].dz ELSE 0)
 TypeOK == /\ mode \in {"start", "prim", "pair", "smp"} /\ op \in Ops \cup {"none"}
           /\ (mode = "prim" => i \in 1..NC /\ op = "none") /\ (mode = "pair" => i \in 1..NP)
 
@@ -157,30 +164,30 @@ CatalogueOK == IsPrim =>
   /\ Cat[i].k # "all" => \E q \in 1..NQ : ~rows.ma[q]
 \* footprint test and 3-D membership agree in the region's own plane
 PlaneAgreement == IsPrim => \A q \in 1..NQ :
-  /\ rows.pa[q] => (FootMember(Cat[i], Probes[q]) = rows.ma[q])
-  /\ IsPlanar(Cat[i]) /\ rows.ma[q] => Probes[q][3] = ZOf(Cat[i])
+  /\ rows.pa[q] => (FootMember(Cat[i], Pq(q)) = rows.ma[q])
+  /\ IsPlanar(Cat[i]) /\ rows.ma[q] => Pq(q)[3] = ZOf(Cat[i])
 \* distance zero exactly on the members; never below the vertical offset of a flat region
 DistZeroIffMember == IsPrim => \A q \in 1..NQ :
-  LET d == Dist(Cat[i], Probes[q]) h == out.h IN
+  LET d == Dist(Cat[i], Pq(q)) h == out.h IN
   /\ d.x >= 0 => ((d.x = 0) <=> rows.ma[q])
   /\ rows.ma[q] => d.lb = 0
   /\ d.x >= 0 => d.lb <= d.x
-  /\ h.t = "z" => d.lb >= Sq(Probes[q][3] - h.v)
+  /\ h.t = "z" => d.lb >= Sq(Pq(q)[3] - h.v)
   /\ Len(d.c) = 3 => ((d.c[1] <= Sq(d.c[2]) /\ d.c[3] = 0) <=> rows.ma[q])
 \* the bounding box contains every member, the height class is right
 BoxSoundPrim == IsPrim => \A q \in 1..NQ : rows.ma[q] =>
-  /\ out.bb.e /\ InB(out.bb.b, Probes[q])
-  /\ out.h.t # "none" /\ (out.h.t = "z" => Probes[q][3] = out.h.v)
+  /\ out.bb.e /\ InB(out.bb.b, Pq(q))
+  /\ out.h.t # "none" /\ (out.h.t = "z" => Pq(q)[3] = out.h.v)
 
 \* ---------------------------------------------------------------- laws on compositions
 \* set semantics with all three coordinates: the printed bitmap is the structural Member
-LawMember == IsCase => \A q \in 1..NQ : Member(R, Probes[q]) = Expected(q)
+LawMember == IsCase => \A q \in 1..NQ : Member(R, Pq(q)) = Expected(q)
 \* the SET denoted by A.intersect(B) is that of B.intersect(A); same for union
 LawCommute == (IsCase /\ op \in {"inter", "union"}) =>
-  \A q \in 1..NQ : Expected(q) = Member(Rrev, Probes[q])
+  \A q \in 1..NQ : Expected(q) = Member(Rrev, Pq(q))
 \* A = (A \ B) + (A & B) disjointly;  A | B = (A \ B) + B disjointly
 LawPartition == IsPair => \A q \in 1..NQ :
-  LET p == Probes[q] d == Member(Comp("diff", A, B), p) n == Member(Comp("inter", A, B), p) IN
+  LET p == Pq(q) d == Member(Comp("diff", A, B), p) n == Member(Comp("inter", A, B), p) IN
   /\ rows.ma[q] = (d \/ n) /\ ~(d /\ n)
   /\ Member(Comp("union", A, B), p) = (d \/ rows.mb[q]) /\ ~(d /\ rows.mb[q])
 \* everywhere / nowhere / idempotence
@@ -190,21 +197,21 @@ LawIdentities == IsCase => \A q \in 1..NQ :
   /\ ia = ib => Expected(q) = (IF op = "diff" THEN FALSE ELSE rows.ma[q])
 \* the footprint reading and the 3-D reading of containsPoint agree where the check compares them
 LawPlane == IsCase => \A q \in 1..NQ : out.ok[q] = 1 =>
-  Expected(q) = (CASE op = "inter" -> FootMember(A, Probes[q]) /\ FootMember(B, Probes[q])
-                   [] op = "union" -> FootMember(A, Probes[q]) \/ FootMember(B, Probes[q])
-                   [] op = "diff" -> FootMember(A, Probes[q]) /\ ~FootMember(B, Probes[q]))
+  Expected(q) = (CASE op = "inter" -> FootMember(A, Pq(q)) /\ FootMember(B, Pq(q))
+                   [] op = "union" -> FootMember(A, Pq(q)) \/ FootMember(B, Pq(q))
+                   [] op = "diff" -> FootMember(A, Pq(q)) /\ ~FootMember(B, Pq(q)))
 \* planar results keep their height; an empty height class means an empty set
 HeightSound == IsCase => \A q \in 1..NQ : Expected(q) =>
-     /\ out.h.t # "none" /\ (out.h.t = "z" => Probes[q][3] = out.h.v)
+     /\ out.h.t # "none" /\ (out.h.t = "z" => Pq(q)[3] = out.h.v)
 \* the bounding box contains every member (and is empty only for an empty set)
-BoxSound == IsCase => \A q \in 1..NQ : Expected(q) => out.bb.e /\ InB(out.bb.b, Probes[q])
+BoxSound == IsCase => \A q \in 1..NQ : Expected(q) => out.bb.e /\ InB(out.bb.b, Pq(q))
 \* distance: zero exactly on members, at least the vertical offset of a flat result
 DistSound == IsCase => \A k \in 1..Len(DistIdx) :
   LET q == DistIdx[k] d == out.dist[k] h == out.h IN
   /\ d.x >= 0 => ((d.x = 0) <=> Expected(q))
   /\ Expected(q) => d.lb = 0
   /\ d.x >= 0 => d.lb <= d.x
-  /\ h.t = "z" => d.lb >= Sq(Probes[q][3] - h.v)
+  /\ h.t = "z" => d.lb >= Sq(Pq(q)[3] - h.v)
   /\ h.t = "none" => d.lb > 0
 \* intersects is symmetric, "no" leaves no common probe, an empty height class means disjoint
 OutIx == IxOf(out.ixgeom, out.sh)
@@ -221,6 +228,20 @@ SampleSound == mode = "smp" => \A k \in 1..Len(out.smp) :
   LET q == SmpP(i, op)[k] IN
   /\ out.smp[k] = "in" => Member(R, q)
   /\ out.smp[k] = "out" => ~Member(R, q)
+
+\* ---------------------------------------------------------------- Reuse: histories
+\* The laws above are stated on VALUES: what A.op(B) denotes is a function of the sets A and B
+\* alone.  In particular it must not depend on which operations the operand OBJECTS took part in
+\* before (regions cache derived data: bounded footprints, meshes, collision data, triangulations,
+\* prepared geometry, memoised intersect / containsRegion).  A history is a short sequence of pairs
+\* (field hid = history, step = position) that share one operand object in the real code; the
+\* expectation of every step is computed exactly as for a fresh pair -- PairRec / CaseRec take no
+\* history argument -- and HistoryFree states it: two entries with the same operands and offset get
+\* the same expectation whatever their history and position.
+SameOperands(p, j) == Pairs[j].a = Pairs[p].a /\ Pairs[j].b = Pairs[p].b /\ Pairs[j].dz = Pairs[p].dz
+HistoryFree == IsCase => \A j \in 1..NP : (j # i /\ SameOperands(i, j)) =>
+   LET other == CaseRec(j, op, rows) IN
+   other.bits = out.bits /\ other.ok = out.ok /\ other.h = out.h /\ other.bb = out.bb /\ other.dist = out.dist
 
 Emit == mode # "start" => PrintT(ToJson(out))
 =============================================================================
